@@ -363,11 +363,13 @@ class _ModView:
 
 
 class World:
-    def __init__(self, modules, symbolic=True, extra=None, extra_by_module=None):
+    def __init__(self, modules, symbolic=True, extra=None, extra_by_module=None, nodes=False):
         """modules: module names whose functions are cloned.  extra: names shadowed in every
         cloned namespace (stubs/recorders) -- also seen by function-local imports.
-        extra_by_module: {module: {name: obj}}."""
+        extra_by_module: {module: {name: obj}}.  nodes: expression classes resolve to
+        symx.nodes class proxies (symbolic nodes instead of content-hashed singletons)."""
         self.symbolic = symbolic
+        self.space = None
         self.names = list(modules)
         self.mods = {n: importlib.import_module(n) for n in self.names}
         self.extra = dict(extra or {})
@@ -379,6 +381,12 @@ class World:
             bi.update(SHIM_BUILTINS)
         bi["__import__"] = self._import
         self.builtins = bi
+        if nodes:
+            from dask._expr import Expr
+            from .nodes import NodeSpace
+
+            self.space = NodeSpace(self, Expr)
+            bi["type"] = self.space.sym_type()
         for n, m in self.mods.items():
             ns = dict(m.__dict__)
             ns["__builtins__"] = bi
@@ -398,6 +406,21 @@ class World:
                     ns["cached_cumsum"] = pure_cached_cumsum
                 if "is_integer" in ns and getattr(ns["is_integer"], "__module__", "") == "dask.utils":
                     ns["is_integer"] = sym_is_integer
+            if self.space is not None:
+                from .nodes import sym_tokenize
+
+                for k, v in list(ns.items()):
+                    if self.space.is_expr_class(v):
+                        ns[k] = self.space.proxy(v)
+                for k in ("tokenize", "_tokenize_deterministic"):
+                    if k in ns:
+                        ns[k] = sym_tokenize
+                from .nodes import sym_dumps, sym_hash_hex
+
+                if "_dumps5" in ns:
+                    ns["_dumps5"] = sym_dumps
+                if "hash_buffer_hex" in ns:
+                    ns["hash_buffer_hex"] = sym_hash_hex
             ns.update(self.extra)
             ns.update(self.extra_by_module.get(n, {}))
 
@@ -430,6 +453,17 @@ class World:
                 return _ModView(self, name)
             mod = builtins.__import__(name, globals, locals, fromlist, level)
             over = {k: self.extra[k] for k in fromlist if k in self.extra}
+            if self.space is not None:
+                from .nodes import sym_tokenize
+
+                for k in fromlist:
+                    if k in over or not hasattr(mod, k):
+                        continue
+                    v = getattr(mod, k)
+                    if self.space.is_expr_class(v):
+                        over[k] = self.space.proxy(v)
+                    elif k in ("tokenize", "_tokenize_deterministic"):
+                        over[k] = sym_tokenize
             if over:
                 view = types.SimpleNamespace(**{k: getattr(mod, k) for k in fromlist if hasattr(mod, k)})
                 for k, v in over.items():
